@@ -177,6 +177,10 @@ type genState struct {
 	gap   bool
 	shuf  bool
 	spare []uint32
+	// "far" mode: a second cluster of sequence numbers, more than 2^24-1 above the first; each new event takes its
+	// number from one of the two
+	far    bool
+	seqFar uint32
 }
 
 func (g *genState) newEv(ses string, pid int) *kev {
@@ -185,12 +189,18 @@ func (g *genState) newEv(ses string, pid int) *kev {
 	if g.gap && g.r.Chance(1, 4) {
 		step += uint32(1 + g.r.Intn(5))
 	}
-	g.seq += step
+	seq := g.seq + step // uint32: wraps from 2^32-1 to 0
+	if g.far && g.r.Bool() {
+		g.seqFar += step
+		seq = g.seqFar
+	} else {
+		g.seq = seq
+	}
 	if pid == 0 {
 		g.pid += 1 + g.r.Intn(7)
 		pid = g.pid
 	}
-	return &kev{seq: g.seq, sec: baseSec + g.ord, ms: g.r.Intn(1000), ses: ses, pid: pid}
+	return &kev{seq: seq, sec: baseSec + g.ord, ms: g.r.Intn(1000), ses: ses, pid: pid}
 }
 
 // block: 1..3 kernel events interleaved
@@ -267,7 +277,15 @@ func padSomeLine(r *hutil.Rand, items []Item) {
 
 // ---------- level 1 ----------
 
-var l1Modes = []string{"clean", "badline", "badline", "faults", "faults", "after", "smallmax", "smallmax", "unterminated", "late", "expiry", "gaps"}
+var l1Modes = []string{"clean", "badline", "badline", "faults", "faults", "after", "smallmax", "smallmax", "unterminated", "late", "expiry", "gaps", "wrap", "far"}
+
+// orderBySource: the stream's sequence numbers are not inside one window of 2^24 (they straddle the 2^32 wrap or form two
+// clusters further apart than 2^24-1), so go-libaudit's Less is not the plain order; the case is compared with the
+// model ordered by the source's comparison (A1W in the case file).  Both modes keep ALL numbers of the stream in two
+// clusters of diameter < 2^24 lying further apart than 2^24-1: there Less is a strict total order and sort.Sort's
+// result is determined.  Three or more far-apart clusters (where Less is not transitive and the result of sort.Sort
+// depends on its algorithm) are left out.
+func orderBySource(mode string) bool { return mode == "wrap" || mode == "far" }
 
 func genL1(r *hutil.Rand, i int) Case {
 	mode := l1Modes[i%len(l1Modes)]
@@ -276,12 +294,28 @@ func genL1(r *hutil.Rand, i int) Case {
 	g := &genState{r: r, seq: uint32(30000 + r.Intn(100000)), pid: 2000 + r.Intn(20000)}
 	g.gap = mode == "gaps" || r.Chance(1, 5)
 	g.shuf = mode == "gaps" || r.Chance(1, 6)
+	switch mode {
+	case "wrap":
+		// the first events are numbered just below 2^32, the later ones from 0 on
+		g.seq = uint32(1<<32 - 1 - r.Intn(12))
+	case "far":
+		// the lower cluster grows by at most 6 per event and a case has fewer than 30 events: it stays below seq+farMargin,
+		// so every number of the upper cluster is more than maxSortRange = 2^24-1 above every number of the lower one
+		// (a stream in which only SOME cross pairs are further apart than 2^24-1 makes Less cyclic: sort.Sort's result
+		// then depends on its algorithm; found when this generator first drew such streams, and left out)
+		const farMargin = 200
+		g.far = true
+		g.seqFar = g.seq + farMargin + 1<<24 + uint32(r.Intn(1<<26))
+		if r.Chance(1, 4) {
+			g.seqFar = g.seq + farMargin + 1<<24 - 1 + uint32(r.Intn(3)) // as close to the boundary as the margin allows
+		}
+	}
 	c.Unordered = g.shuf
 	sesPool := []string{"499", "501", "4294967295"}
 	ses := func() string { return hutil.Pick(r, sesPool) }
 	term := func() string {
 		switch {
-		case mode == "unterminated" && r.Chance(1, 2):
+		case (mode == "unterminated" || orderBySource(mode)) && r.Chance(1, 2):
 			return "none"
 		case r.Chance(1, 3):
 			return "proctitle"
@@ -302,12 +336,16 @@ func genL1(r *hutil.Rand, i int) Case {
 			continue
 		}
 		n := 1 + r.Intn(3)
-		if mode == "smallmax" || mode == "clean" {
+		if mode == "smallmax" || mode == "clean" || orderBySource(mode) {
 			n = 2 + r.Intn(2)
 		}
 		its, evs := g.kernelBlock(n, ses, term)
 		items = append(items, its...)
 		all = append(all, evs...)
+	}
+	if orderBySource(mode) && r.Chance(2, 3) {
+		// a small limit makes the ORDER of the buffer decide which event an overflow evicts
+		c.MaxSz = 1 + r.Intn(3)
 	}
 	switch mode {
 	case "smallmax":
@@ -336,7 +374,7 @@ func genL1(r *hutil.Rand, i int) Case {
 	case "after":
 		c.AfterSec = baseSec + 1 + int64(r.Intn(int(g.ord)+1))
 	}
-	if mode == "unterminated" || r.Chance(1, 4) {
+	if mode == "unterminated" || orderBySource(mode) || r.Chance(1, 4) {
 		for k := 0; k < 1+r.Intn(2); k++ {
 			items = insertAt(items, r.Intn(len(items)+1), Item{Kind: "tick"})
 		}
